@@ -57,7 +57,7 @@ MInit(h) ==
     preds   |-> {},                                    \* predicate evaluations of the current condition-signal batch [p, v]
     cgrants |-> {},                                    \* processes granted in the current batch
     csub    |-> {},                                    \* guards the condition is subscribed to
-    rec     |-> [o \in Guards |-> [on |-> FALSE, t0 |-> 0, traj |-> <<>>]],
+    rec     |-> [o \in Guards |-> [on |-> FALSE, t0 |-> 0, traj |-> <<>>, phase |-> "idle"]],   \* idle -> on -> stopped -> closed
     gone    |-> {},                                    \* <<guard, process>> taken out of the condition's list since the last operation
     actor   |-> [p |-> 0, op |-> "none"],                \* who performed the step that the next snapshot closes
     snap    |-> [t |-> -1] ]
@@ -194,9 +194,9 @@ OnRet(m, e) ==
       (* -------- C07 *)
       isPool == c.op \in {"pacq", "ppre"}
       heldNow == e.out[1]
+      \* (held0 has been reset to 0 if the process was robbed of its units during the call)
       badPool == isPool /\ \/ sig = SUCCESS /\ heldNow # c.held0 + c.a[1]
-                           \/ sig = PREEMPTED /\ heldNow # 0
-                           \/ sig \notin {SUCCESS, PREEMPTED} /\ heldNow # c.held0
+                           \/ sig # SUCCESS /\ heldNow # c.held0
       m3 == IF isPool THEN [m2 EXCEPT !.pheld[p] = heldNow] ELSE m2
       (* -------- C11 *)
       isBuf == c.op \in {"bput", "bget"}
@@ -291,8 +291,14 @@ OnDo(m, e) ==
                     bad |-> IF m.uev[a[1]].st # "pending" THEN Bad("C01", "cancelled-an-event-that-was-not-pending") ELSE {}]
            ELSE [m |-> m, bad |-> {}]
     [] e.op = "rec" ->
-         IF a[2] = 1 THEN [m |-> [m EXCEPT !.rec[a[1]] = [on |-> TRUE, t0 |-> t, traj |-> <<>>]], bad |-> {}]
-         ELSE [m |-> [m EXCEPT !.rec[a[1]].on = FALSE], bad |-> {}]
+         \* the property speaks of one recording interval: the first start .. the first stop after it
+         IF a[2] = 1
+           THEN IF m.rec[a[1]].phase = "idle"
+                  THEN [m |-> [m EXCEPT !.rec[a[1]] = [on |-> TRUE, t0 |-> t, traj |-> <<>>, phase |-> "on"]], bad |-> {}]
+                  ELSE [m |-> m, bad |-> {}]
+           ELSE IF m.rec[a[1]].phase = "on"
+                  THEN [m |-> [m EXCEPT !.rec[a[1]].on = FALSE, !.rec[a[1]].phase = "stopped"], bad |-> {}]
+                  ELSE [m |-> m, bad |-> {}]
     [] OTHER -> [m |-> m, bad |-> {}]
 
 (* ---------------------------------------------------------------------- *)
@@ -388,8 +394,10 @@ OnHist(m, e) ==
       same == \A t \in times : t >= m.rec[o].t0 => StepVal(hs, t) = StepVal(tr, t)
       starts == Len(hs) > 0 /\ hs[1][2] = m.rec[o].t0
       avgOk == LET exact == Area(tr, tend) * 1000 IN e.wsum_milli - exact \in -2..2
-  IN IF e.n > 200 \/ Len(tr) = 0 THEN [m |-> m, bad |-> {}]
-     ELSE [m |-> m,
+      m2 == [m EXCEPT !.rec[o].phase = "closed", !.rec[o].on = FALSE]
+  IN IF m.rec[o].phase \notin {"on", "stopped"} THEN [m |-> m, bad |-> {}]
+     ELSE IF e.n > 200 \/ Len(tr) = 0 THEN [m |-> m2, bad |-> {}]
+     ELSE [m |-> m2,
            bad |-> (IF ~mono THEN Bad("C14", "history-times-decrease") ELSE {})
               \cup (IF ~starts THEN Bad("C14", "history-does-not-start-at-recording-start") ELSE {})
               \cup (IF mono /\ ~same THEN Bad("C14", "history-differs-from-true-trajectory") ELSE {})
